@@ -22,6 +22,11 @@ from common import f2h
 INF = float('inf')
 EPS = 2.0 ** -52
 KEY_RETURNED = 'C13:residual-at-returned-point-exceeds-tolerance'
+COUNTS = {}          # what the monitor checked / could not check, by reason (written to the evidence)
+
+
+def bump(k, n=1):
+    COUNTS[k] = COUNTS.get(k, 0) + n
 
 
 def eff_tol(op):
@@ -67,6 +72,7 @@ def monitor(op_line, out_line, st):
         # compare in binary64 — unless the solver claims convergence there
         if ' Converged ' in out_line.split(' ; ')[0]:
             return 'Converged on a run whose exact quantities overflow binary64'
+        bump('exempt_exact_values_overflow_binary64')
         return None
 
 
@@ -113,17 +119,33 @@ def monitor_(op_line, out_line, st):
     u, y, e = o['u'], o['y'], o['errz']
     ex = L.ExactOCP(op)
     finite_out = all(math.isfinite(a) for a in u + y + e)
-    if stx['status'] == 'Converged' or stx['status'] == 'Interrupted' and finite_out:
-        uk_f = r['cbs'][-1]['u']
-        for j in range(N * nu):
-            if not in_box(u[j], ex.Ulb[j % nu], ex.Uub[j % nu], uk_f[j]):
+    bump('wrote_' + stx['status'])
+    # u ∈ U on EVERY exit that wrote its outputs (C03_Ocp.ocp_u_out_in_U quantifies over all of them): every
+    # finite component; a non-finite component is only tolerated when the final iterate itself is non-finite
+    # (û = u + p of a non-finite u / ∇ψ — the status is then not Converged)
+    uk_f = r['cbs'][-1]['u']
+    for j in range(N * nu):
+        if math.isfinite(u[j]):
+            if not in_box(u[j], ex.Ulb[j % nu], ex.Uub[j % nu], uk_f[j] if math.isfinite(uk_f[j]) else 0.0):
                 return (f'returned u[{j}]={u[j]!r} outside U=[{ex.Ulb[j % nu]},{ex.Uub[j % nu]}] '
                         f'(status {stx["status"]})')
+            bump('u_in_box_checked')
+        else:
+            bump('u_in_box_skipped_nonfinite_component')
+    # the returned inputs are, bit for bit, the û the final callback reported (every writing exit)
+    if [f2h(a) for a in u] != [f2h(a) for a in r['cbs'][-1]['uhat']]:
+        return f'returned u is not the û of the final iterate (status {stx["status"]})'
     if not finite_out:
         if stx['status'] == 'Converged':
             return 'Converged with non-finite outputs'
+        fin_it = all(math.isfinite(a) for a in r['cbs'][-1]['u'] + r['cbs'][-1]['grad_psi'])
+        if fin_it and all(math.isfinite(a) for a in u):
+            bump('exempt_nonfinite_y_errz_with_finite_u')      # constraint values overflowed at û
+        else:
+            bump('exempt_nonfinite_final_iterate')
         return None       # non-finite problem data reached the outputs (status says so); nothing to recompute
     if max([abs(a) for a in u] + [0.0]) > 1e60:
+        bump('exempt_u_beyond_1e60')
         return None       # astronomically scaled run: exact recomputation not meaningful in doubles
     y0 = L.frv(op.vec('y0')); mu = L.frv(op.vec('mu'))
     U = L.frv(u)
@@ -154,13 +176,36 @@ def monitor_(op_line, out_line, st):
                 return f'multiplier y[{j}]={y[j]!r} > 0 although D has no upper bound on row {j}'
             if lbs[j] == -INF and y[j] < -ytol:
                 return f'multiplier y[{j}]={y[j]!r} < 0 although D has no lower bound on row {j}'
-    # --- C13: Converged certifies stationarity
-    if stx['status'] != 'Converged':
-        return None
+    # --- the final iterate's data against the independent exact roll-out, for EVERY writing exit with a
+    #     finite final iterate: ∇ψ(u_k) is the gradient at the reported u_k, and the returned inputs are
+    #     û = Π_U(u_k − γ∇ψ(u_k)) (C06_Ocp.ocp_eps_is_documented; a solver that writes `xu` instead of `xû` on
+    #     MaxIter / MaxTime / NoProgress / NotFinite exits is caught here)
     margin = 2.0 ** -36 * (1.0 + xmag + float(gamma) * gmag) * (1.0 / min(float(gamma), 1.0)
                                                                if crit.startswith('FPR') else 1.0)
     cb = r['cbs'][-1]
+    if not all(math.isfinite(a) for a in cb['u'] + cb['grad_psi']) or max([abs(a) for a in cb['u']] + [0.0]) > 1e60:
+        bump('exempt_final_iterate_nonfinite_or_beyond_1e60')
+        return None if stx['status'] != 'Converged' else 'Converged with a non-finite final iterate'
     uk = L.frv(cb['u'])
+    gex = ex.psi_grad(uk, y0, mu)[1]
+    gk0 = max([abs(float(a)) for a in gex] + [0.0])
+    ukmag = max([abs(a) for a in cb['u']] + [1.0])
+    gtol = 2.0 ** -36 * (1.0 + gk0) * (1.0 + xmag + ukmag) ** 2
+    for j in range(N * nu):
+        if abs(Fr(cb['grad_psi'][j]) - gex[j]) > gtol:
+            return (f'reported ∇ψ[{j}]={cb["grad_psi"][j]!r} of the final iterate, but the gradient at the reported '
+                    f'u from the exact roll-out is {float(gex[j])!r} (status {stx["status"]})')
+    bump('grad_at_final_iterate_checked')
+    pk0 = ex.proj_step(gamma, uk, gex)
+    mk0 = margin + 2.0 ** -36 * float(gamma) * gk0 * (1.0 + xmag + ukmag)
+    for j in range(N * nu):
+        if abs(Fr(u[j]) - (uk[j] + pk0[j])) > mk0:
+            return (f'returned u[{j}]={u[j]!r} is not Π_U(u−γ∇ψ(u)) of the final iterate '
+                    f'({float(uk[j] + pk0[j])!r}; status {stx["status"]})')
+    bump('returned_u_is_projected_step_checked')
+    # --- C13: Converged certifies stationarity
+    if stx['status'] != 'Converged':
+        return None
     rk, gk, _, _, _ = residual(ex, crit, gamma, uk, y0, mu)
     mk = margin + 2.0 ** -36 * float(gamma) * gk
     if rk > tol * (1 + 1e-9) + mk:
@@ -234,6 +279,12 @@ def probes(rep, broken, exe, tier):
                     bad += 1
     notes['J2_unitnorm_workspace_stop_injection'] = {'runs': tot, 'inconsistent': bad}
     rep.cov['probes'] = notes
+    rep.cov['monitor_counts'] = dict(sorted(COUNTS.items()))
+    rep.note('monitor counts: ' + ', '.join(f'{k}={v}' for k, v in sorted(COUNTS.items())))
+    for need in ('u_in_box_checked', 'grad_at_final_iterate_checked', 'returned_u_is_projected_step_checked',
+                 'wrote_MaxIter', 'wrote_Converged', 'wrote_Interrupted'):
+        if not COUNTS.get(need):
+            broken.append(f'monitor class never exercised in this run: {need}')
     rep.cov['evaluations'] += tot + 3
     rep.note(f'probes: L confirmed={notes["L_default_stop_crit"]["confirmed"]}; K {kres}; '
              f'J2 {tot} stop-injected runs, {bad} inconsistent')
